@@ -34,6 +34,10 @@ fn fp_name(f: RFp) -> &'static str {
         RFp::BadThenDecoy => "wrong-then-decoy",
         RFp::BadThenSecondFp => "wrong-then-second-fingerprint",
         RFp::ValueOfPrevious => "value-of-the-previous-message",
+        RFp::BadWithUnknownRequired => "wrong-next-to-an-unknown-required-attribute",
+        RFp::AbsentWithUnknownRequired => "absent-next-to-an-unknown-required-attribute",
+        RFp::BadWithResidueTrailer => "wrong-with-a-crc-residue-trailer-beyond-the-message",
+        RFp::BadWithLookalikeTrailer => "wrong-with-a-fingerprint-lookalike-beyond-the-message",
     }
 }
 
@@ -128,7 +132,7 @@ impl Monitor for Mon {
         }
         for i in w.awaiting() {
             for r in base_replies(&w.cfg) {
-                for f in [RFp::Valid, RFp::Bad, RFp::Absent, RFp::MisplacedWrongLen, RFp::BadThenDecoy, RFp::BadThenSecondFp, RFp::ValueOfPrevious] {
+                for f in [RFp::Valid, RFp::Bad, RFp::Absent, RFp::MisplacedWrongLen, RFp::BadThenDecoy, RFp::BadThenSecondFp, RFp::ValueOfPrevious, RFp::BadWithUnknownRequired, RFp::AbsentWithUnknownRequired, RFp::BadWithResidueTrailer, RFp::BadWithLookalikeTrailer] {
                     v.push(Event::Deliver { to: Target::Req(i), reply: r.with_fp(f) });
                 }
             }
@@ -139,7 +143,7 @@ impl Monitor for Mon {
                 Mech::ShortTerm(_) => RMac::Mi,
                 _ => RMac::None,
             };
-            for f in [RFp::Valid, RFp::Bad, RFp::Absent, RFp::MisplacedWrongLen, RFp::BadThenDecoy, RFp::BadThenSecondFp, RFp::ValueOfPrevious] {
+            for f in [RFp::Valid, RFp::Bad, RFp::Absent, RFp::MisplacedWrongLen, RFp::BadThenDecoy, RFp::BadThenSecondFp, RFp::ValueOfPrevious, RFp::BadWithUnknownRequired, RFp::AbsentWithUnknownRequired, RFp::BadWithResidueTrailer, RFp::BadWithLookalikeTrailer] {
                 v.push(Event::Deliver { to: Target::Unknown, reply: Reply::plain(RClass::Indication).with_mac(mac).with_fp(f) });
             }
         }
@@ -224,6 +228,6 @@ pub fn run(ctx: &RunCtx, rep: &mut Report) {
     rep.extra.insert(
         "client".into(),
         json!({"engine": "E3 breadth-first exploration of fingerprint-enforcing clients (none / short-term / long-term x both transports)", "depth": depth, "states": states, "transitions": transitions, "per_config": per,
-               "alphabet": "Send, Indicate, Timer, AdvanceTo, Deliver(each awaiting request x accepted reply kinds of the mechanism x FINGERPRINT {valid, one bit wrong, absent, misplaced before the last attribute with the CRC over the unadjusted length, wrong and followed by a decoy attribute whose value reads like a matching FINGERPRINT TLV, wrong and followed by a second FINGERPRINT that is right for its own position, carrying the FINGERPRINT value of the buffer delivered just before}), Deliver(a response with a right FINGERPRINT and a wrong MAC, short-term on unreliable transport), Deliver(indication x the 7 FINGERPRINT kinds)"}),
+               "alphabet": "Send, Indicate, Timer, AdvanceTo, Deliver(each awaiting request x accepted reply kinds of the mechanism x FINGERPRINT {valid, one bit wrong, absent, misplaced before the last attribute with the CRC over the unadjusted length, wrong and followed by a decoy attribute whose value reads like a matching FINGERPRINT TLV, wrong and followed by a second FINGERPRINT that is right for its own position, carrying the FINGERPRINT value of the buffer delivered just before, wrong / absent on a message that also carries an unknown comprehension-required attribute}), Deliver(a response with a right FINGERPRINT and a wrong MAC, short-term on unreliable transport), Deliver(indication x the 7 FINGERPRINT kinds)"}),
     );
 }
